@@ -258,6 +258,16 @@ func runUDPCase(cs *udpCaseSpec) (obs []udpOpObs, tports []int, fatal string, sh
 		clients = append(clients, pc.(*net.UDPConn))
 		defer pc.Close()
 	}
+	// a sixth client on the link-local address of eth0: its address carries a zone ("fe80::..%eth0")
+	zonedIP := linkLocalEth0()
+	if zonedIP != nil {
+		if pc, err := net.ListenUDP("udp", &net.UDPAddr{IP: zonedIP, Zone: "eth0"}); err == nil {
+			clients = append(clients, pc)
+			defer pc.Close()
+		} else {
+			zonedIP = nil
+		}
+	}
 	other4, _ := net.ListenPacket("udp", "127.0.0.1:0")
 	other6, _ := net.ListenPacket("udp", "[::1]:0")
 	if other4 != nil {
@@ -294,6 +304,11 @@ func runUDPCase(cs *udpCaseSpec) (obs []udpOpObs, tports []int, fatal string, sh
 					ob.Removed++
 				}
 			}
+			obs = append(obs, ob)
+			continue
+		}
+		if op.Client >= len(clients) { // the zoned client, on a machine without a link-local address
+			op.Skipped = true
 			obs = append(obs, ob)
 			continue
 		}
@@ -417,6 +432,9 @@ func runUDPCase(cs *udpCaseSpec) (obs []udpOpObs, tports []int, fatal string, sh
 		srvAddr := &net.UDPAddr{IP: net.IPv4(127, 0, 0, 1), Port: srv.LocalAddr().(*net.UDPAddr).Port}
 		if op.Client == 4 {
 			srvAddr.IP = net.IPv6loopback
+		}
+		if op.Client == 5 {
+			srvAddr.IP, srvAddr.Zone = zonedIP, "eth0"
 		}
 		if _, err := c.WriteTo(pkt, srvAddr); err != nil {
 			ob.Err = "client write: " + err.Error()
@@ -653,7 +671,7 @@ func udpOpTerm(op *udpOp, tports []int) string {
 		}
 		k = fmt.Sprintf("DHonest %d %d %d %d %d %d %d %s", op.C, op.S, op.Seed, op.AKind, tp, op.PLen, op.PSeed, cListT("(N * N)", rs))
 	}
-	cip := []int{1, 1, 2, 3, 4}[op.Client]
+	cip := []int{1, 1, 2, 3, 4, 5}[op.Client]
 	return fmt.Sprintf("ODgram %d %d (%s)", op.Client+1, cip, k)
 }
 
@@ -683,4 +701,19 @@ func udpObsTerm(o *udpOpObs) string {
 		rs = append(rs, fmt.Sprintf("{| r_status := %d; r_from := %s; r_body := (%d, %d); r_tb := %s; r_cb := %s |}", code, cBytes(r.From), len(r.Body), cksum(r.Body), cZ(r.TB), cZ(r.CB)))
 	}
 	return fmt.Sprintf("{| d_sent := %s; d_new := %s; d_report := %s; d_replies := %s; d_removed := %d |}", sent, nw, rep, cListT("robs", rs), o.Removed)
+}
+
+// linkLocalEth0: the IPv6 link-local address of eth0, or nil
+func linkLocalEth0() net.IP {
+	ifi, err := net.InterfaceByName("eth0")
+	if err != nil {
+		return nil
+	}
+	as, _ := ifi.Addrs()
+	for _, a := range as {
+		if ipn, ok := a.(*net.IPNet); ok && ipn.IP.To4() == nil && ipn.IP.IsLinkLocalUnicast() {
+			return ipn.IP
+		}
+	}
+	return nil
 }
